@@ -320,7 +320,9 @@ class Radio:
         expects = esb and bool(self.r[1] & 1) and not noack
         dpl = bool(self.feat & 4) and bool(self.dynpd & 1)
         pkt = {"addr": bytes(self.a[0x10][: self.aw]), "aw": self.aw, "esb": esb, "pid": ent["pid"],
-               "noack": (not expects) if esb else None, "len": len(ent["data"]) if (dpl and esb) else None,
+               # NO_ACK bit of the PCF: only W_TX_PAYLOAD_NOACK under EN_DYN_ACK sets it (M3); a PTX whose EN_AA.P0 is
+               # off merely does not wait - a PRX with auto-ack on that pipe still answers
+               "noack": noack if esb else None, "len": len(ent["data"]) if (dpl and esb) else None,
                "data": bytes(ent["data"]), "crclen": self.crclen, "ack": False}
         dur = self._airtime(len(ent["data"]), self.crclen, esb)
         self.stats["tx"] += 1
